@@ -93,11 +93,13 @@ func (b *Buffer[K, V]) Add(n ReadBufItem[K, V]) *PolicyBuffers[K, V] {
 	tail := b.tail.Load()
 	size := tail - head
 	if size >= capacity {
-		// full buffer
+		// full buffer: normally the reader that fills the last slot drains the buffer,
+		// but it gives up when the returned policy buffer is still in use at that moment.
+		// Drain here instead, otherwise the buffer would stay full forever.
 		if verifOn {
 			verifAt(VpBufFull, b, n.entry, nil)
 		}
-		return nil
+		return b.drain(n)
 	}
 	if verifOn {
 		verifAt(VpBufCasTail, b, n.entry, nil)
@@ -113,42 +115,7 @@ func (b *Buffer[K, V]) Add(n ReadBufItem[K, V]) *PolicyBuffers[K, V] {
 			hash:  n.hash,
 		}))
 		if size == capacity-1 {
-			// try return new buffer
-			if verifOn {
-				verifAt(VpBufCasToken, b, n.entry, nil)
-			}
-			if !atomic.CompareAndSwapPointer(&b.returned, b.policyBuffers, nil) {
-				// somebody already get buffer
-				if verifOn {
-					verifAt(VpBufRet, b, n.entry, nil, 0, 1)
-				}
-				return nil
-			}
-
-			pb := (*PolicyBuffers[K, V])(b.policyBuffers)
-			for i := 0; i < capacity; i++ {
-				index := int(head & mask)
-				if verifOn {
-					verifAt(VpBufDrainSlot, b, n.entry, nil, int64(index))
-				}
-				v := atomic.LoadPointer(&b.buffer[index])
-				if v != nil {
-					// published
-					pb.Returned = append(pb.Returned, *castToPointer[K, V](v))
-					// release
-					atomic.StorePointer(&b.buffer[index], nil)
-				}
-				head++
-			}
-
-			if verifOn {
-				verifAt(VpBufStoreHead, b, n.entry, nil, int64(head))
-			}
-			b.head.Store(head)
-			if verifOn {
-				verifAt(VpBufRet, b, n.entry, pb, 1, 0)
-			}
-			return pb
+			return b.drain(n)
 		}
 		if verifOn {
 			verifAt(VpBufRet, b, n.entry, nil, 0, 0)
@@ -161,6 +128,57 @@ func (b *Buffer[K, V]) Add(n ReadBufItem[K, V]) *PolicyBuffers[K, V] {
 		verifAt(VpBufRet, b, n.entry, nil, 0, 2)
 	}
 	return nil
+}
+
+// drain takes the returned policy buffer if it is free and the ring buffer is full,
+// moves all published items into it and advances head.
+func (b *Buffer[K, V]) drain(n ReadBufItem[K, V]) *PolicyBuffers[K, V] {
+	// try return new buffer
+	if verifOn {
+		verifAt(VpBufCasToken, b, n.entry, nil)
+	}
+	if !atomic.CompareAndSwapPointer(&b.returned, b.policyBuffers, nil) {
+		// somebody already get buffer
+		if verifOn {
+			verifAt(VpBufRet, b, n.entry, nil, 0, 1)
+		}
+		return nil
+	}
+	// head only moves while the returned buffer is held, so it is stable now
+	head := b.head.Load()
+	if b.tail.Load()-head < capacity {
+		// drained by somebody else meanwhile
+		if verifOn {
+			verifAt(VpBufFree, b, nil, nil)
+		}
+		atomic.StorePointer(&b.returned, b.policyBuffers)
+		return nil
+	}
+
+	pb := (*PolicyBuffers[K, V])(b.policyBuffers)
+	for i := 0; i < capacity; i++ {
+		index := int(head & mask)
+		if verifOn {
+			verifAt(VpBufDrainSlot, b, n.entry, nil, int64(index))
+		}
+		v := atomic.LoadPointer(&b.buffer[index])
+		if v != nil {
+			// published
+			pb.Returned = append(pb.Returned, *castToPointer[K, V](v))
+			// release
+			atomic.StorePointer(&b.buffer[index], nil)
+		}
+		head++
+	}
+
+	if verifOn {
+		verifAt(VpBufStoreHead, b, n.entry, nil, int64(head))
+	}
+	b.head.Store(head)
+	if verifOn {
+		verifAt(VpBufRet, b, n.entry, pb, 1, 0)
+	}
+	return pb
 }
 
 // Load all items in buffer, used in test only to update policy proactive proactively
